@@ -31,7 +31,9 @@ def worlds(tier: str, stats: Dict[str, Any], subset: Optional[str] = None) -> It
         progs = [(p, "ops") for p in gpusim.programs(2)] + [(p, "flat") for p in gpusim.programs(3, with_ops=False) if len(p) == 3]
         profiles = PROFILES_QUICK
     else:
-        progs = [(p, "ops") for p in gpusim.programs(3)] + [(p, "flat") for p in gpusim.programs(4, with_ops=False) if len(p) == 4]
+        progs = [(p, "ops") for p in gpusim.programs(2)] + [(p, "flat") for p in gpusim.programs(3, with_ops=False) if len(p) == 3]
+        deep = [(p, "ops3") for p in gpusim.programs(3) if sum(1 for a in p if a[0] not in ("op", "anno", "end")) == 3] + \
+               [(p, "flat4") for p in gpusim.programs(4, with_ops=False) if len(p) == 4]
         profiles = PROFILES_QUICK + PROFILES_MORE
     evprogs = gpusim.event_programs(3 if tier == "quick" else 4)
     if subset == "small":
@@ -74,6 +76,16 @@ def worlds(tier: str, stats: Dict[str, Any], subset: Optional[str] = None) -> It
             if kind == "ops" and len(p) <= 4 and j < 2:
                 stats["transitions"] += 1
                 yield dict(program=[list(a) for a in wrap_steps(p)], profile=prof, steps=True, flag=(i + j + 1) % 2)
+    if tier != "quick":
+        # deeper programs under two timing profiles
+        if subset == "small":
+            deep = deep[::3]
+        elif subset == "smaller":
+            deep = deep[::6]
+        for i, (p, kind) in enumerate(deep):
+            for j, prof in enumerate((PROFILES_QUICK[0], PROFILES_QUICK[1])):
+                stats["transitions"] += 1
+                yield dict(program=[list(a) for a in p], profile=prof, steps=False, flag=(i + j) % 2)
     # CUDA-event synchronisation programs (cudaEventRecord / cudaStreamWaitEvent / cudaEventSynchronize)
     yield from _event_worlds(evprogs, profiles, stats)
 
